@@ -242,11 +242,11 @@ Definition fpoint_set (s : source) (rmin rmax : N) : fres :=
     match text_number NF32 (or_f1 o) t with
     | CErr _ => FErr BadType
     | CZero => FZero
-    | CKeep => check 0%N 0%N                   (* white space only: not generated (unassigned buffer) *)
+    | CKeep => FErr MissingData                (* white space only: the text ends, no second element *)
     | CVal vx =>
       let x := nv_bits vx in
       let e1 := Z.to_nat (fo_end (or_f1 o)) in
-      if (List.length t <=? e1)%nat then check x x
+      if (List.length t <=? e1)%nat then FErr MissingData     (* a single number: no second element *)
       else match skipn (S e1) t with
            | [] => FErr BadType
            | t2 => match text_number NF32 (or_f2 o) t2 with
